@@ -167,7 +167,9 @@ Definition reload_prov (acc : list prov * tmap) (p : prov) : list prov * tmap :=
 Inductive sstate :=
 | SIdle                              (* waiting for the next tick *)
 | SSnap (k : nat) (acc : snap)       (* took triggerSend; inside allGroups, k providers read *)
-| SHave (acc : snap).                (* allGroups returned, about to try the send *)
+| SHave (acc : snap)                 (* allGroups returned, about to try the send *)
+| SRearm.                            (* send found no receiver (default branch); about to put the
+                                        trigger back with a NON-BLOCKING send *)
 
 Record state := mkS {
   providers : list prov;
@@ -190,7 +192,10 @@ Inductive label :=
 | ETake                              (* sender: case <-m.triggerSend *)
 | ESnapProv                          (* sender: one provider iteration of allGroups *)
 | ESnapDone                          (* sender: allGroups returns *)
-| ESend                              (* sender: select { case m.syncCh <- v: default: re-arm } *)
+| ESend                              (* sender: select { case m.syncCh <- v: ... default: ... } *)
+| ERearm                             (* sender: select { case m.triggerSend <- struct{}{}: default: }
+                                        — never blocks: if an updater or a reload has armed the
+                                        trigger since ETake, the put-back is simply dropped *)
 | EWait                              (* consumer blocks in receive *)
 | EUnwait                            (* consumer gives up waiting (slow consumer) *)
 | EReload (c : cfg)                  (* ApplyConfig *)
@@ -210,7 +215,7 @@ Definition set_providers P (s : state) :=
 Definition is_busy (p : prov) : bool := match pu p with UBusy _ _ => true | _ => false end.
 
 Definition sender_allows_reload (s : sstate) : bool :=
-  match s with SIdle => true | SSnap O _ => true | SSnap _ _ => false | SHave _ => true end.
+  match s with SIdle => true | SSnap O _ => true | SSnap _ _ => false | SHave _ => true | SRearm => true end.
 
 Definition reload (c : cfg) (s : state) : option state :=
   let '(P1, last1) := register c (providers s) (lastp s) in
@@ -300,7 +305,15 @@ Definition step (s : state) (l : label) : option state :=
       | SHave acc =>
           if cwait s
           then Some (mkS (providers s) (targets s) (trigger s) (lastp s) SIdle false acc)
-          else Some (mkS (providers s) (targets s) true (lastp s) SIdle false (delivered s))
+          else Some (mkS (providers s) (targets s) (trigger s) (lastp s) SRearm false (delivered s))
+      | _ => None
+      end
+  | ERearm =>
+      match sender s with
+      | SRearm =>
+          (* enabled whatever `trigger s` is: a blocking put-back would be disabled (stuck for
+             ever, the sender being the only reader) when the trigger is already armed *)
+          Some (mkS (providers s) (targets s) true (lastp s) SIdle (cwait s) (delivered s))
       | _ => None
       end
   | EWait => if cwait s then None
